@@ -773,6 +773,9 @@ def finite_all(*arrs):
     return all(np.all(np.isfinite(np.asarray(a, float))) for a in arrs)
 
 
+IMPL_REJECTS = []      # valid calls of the raw-option correspondences on which the implementation raised (the generators construct accepted inputs: 0 in 618 calls on the unchanged tree)
+
+
 def optfixed_lit(fixed):
     return "(@None (list nat))" if fixed is None else f"(Some {C.nat_list(list(fixed))})"
 
@@ -799,7 +802,7 @@ def corr_mu_cp(rng, tier):
     import tensorly as tl
     eps = float(tl.eps(np.float64))
     out = []
-    nrun = 14 if tier == "quick" else 60
+    nrun = 12 if tier == "quick" else 60
     for k in range(nrun):
         order = rng.choice([2, 3, 3])
         shape = tuple(rng.randint(2, 3) for _ in range(order))
@@ -821,6 +824,8 @@ def corr_mu_cp(rng, tier):
         n = rng.choice([0, 1, 1, 2] if (order == 2 and (rank == 1 or (not nm and tier != "quick"))) else [0, 1, 1])    # exact rationals grow fast with the depth
         st, r = quiet_call(lambda: non_negative_parafac(X.copy(), rank, n_iter_max=n, init=(w.copy(), [f.copy() for f in Fs]), tol=0,
                                                         normalize_factors=nm, fixed_modes=None if fixed is None else list(fixed)))
+        if st == "reject":
+            IMPL_REJECTS.append({"corr": "non_negative_parafac", "raised": r, "tensor": X, "weights": w, "factors": Fs, "normalize": nm, "fixed": fixed, "n": n})
         if st != "ok" or not finite_all(r[0], *r[1]):
             continue
         op = (f"(OMuCpE {C.q(eps)} {C.qtensor(shape, [float(x) for x in X.reshape(-1)])} {qvec_lit(w)} {qmats_lit(Fs)} "
@@ -1103,7 +1108,7 @@ def corr_hals_cp(rng, tier):
     its own stopping rule, up to 100 sweeps), executed by the model at the fixed-point carrier"""
     from tensorly.decomposition import non_negative_parafac_hals
     out = []
-    nrun = 6 if tier == "quick" else 40
+    nrun = 5 if tier == "quick" else 40
     for k in range(nrun):
         order = rng.choice([2, 3, 3])
         big = tier != "quick"
@@ -1126,6 +1131,9 @@ def corr_hals_cp(rng, tier):
         st, r = quiet_call(lambda: non_negative_parafac_hals(X.copy(), rank, n_iter_max=n, init=(w.copy(), [f.copy() for f in Fs]), tol=0,
                                                              normalize_factors=nm, fixed_modes=None if fixed_raw is None else list(fixed_raw), nn_modes=nn,
                                                              sparsity_coefficients=sps if not isinstance(sps, list) else list(sps)), timeout=120)
+        if st == "reject":
+            IMPL_REJECTS.append({"corr": "non_negative_parafac_hals", "raised": r, "tensor": X, "weights": w, "factors": Fs, "normalize": nm, "fixed": fixed_raw,
+                                 "nn_modes": nn, "sparsity": sps, "n": n})
         if st != "ok" or not finite_all(r[0], *r[1]):
             continue
         nn_lit = "NNAll" if nn == "all" else f"(NNList {C.nat_list(nn)})"
@@ -1143,7 +1151,7 @@ def corr_tucker_hals(rng, tier):
     model's own UtM / UtU with the inner stopping rule, FISTA core step with the recorded step size (SVD oracle), normalisation"""
     from tensorly.decomposition import non_negative_tucker_hals
     out = []
-    nrun = 6 if tier == "quick" else 36
+    nrun = 5 if tier == "quick" else 36
     for k in range(nrun):
         order = rng.choice([2, 3, 3])
         shape = tuple(rng.randint(2, 4 if tier != "quick" else 3) for _ in range(order))
@@ -1167,6 +1175,9 @@ def corr_tucker_hals(rng, tier):
                                                                          sparsity_coefficients=sps if not isinstance(sps, list) else list(sps),
                                                                          core_sparsity_coefficient=csp), timeout=120)
         st, r = call(nm)
+        if st == "reject":
+            IMPL_REJECTS.append({"corr": "non_negative_tucker_hals (fista)", "raised": r, "tensor": X, "core": core, "factors": Fs, "normalize": nm, "fixed": fixed_raw,
+                                 "sparsity": sps, "core_sparsity": csp, "n": n})
         if st != "ok" or not finite_all(r[0], *r[1]):
             continue
         lr = 1.0
@@ -1237,7 +1248,7 @@ def corr_tucker_aset(rng, tier):
     """complete runs of non_negative_tucker_hals(algorithm='active_set'), 0 or 1 outer sweeps, from a user initialisation"""
     from tensorly.decomposition import non_negative_tucker_hals
     out = []
-    nrun = 8 if tier == "quick" else 36
+    nrun = 6 if tier == "quick" else 36
     for k in range(nrun):
         order = rng.choice([2, 3, 3])
         shape = tuple(rng.randint(2, 4 if tier != "quick" else 3) for _ in range(order))
@@ -1318,6 +1329,7 @@ def corr_line(rng, tier, chk):
 
 
 def run_correspondence(chk, rng):
+    del IMPL_REJECTS[:]
     groups = []
     groups += corr_mu_cp(rng, chk.tier)
     groups += corr_hals(rng, chk.tier)
@@ -1377,6 +1389,10 @@ def run_correspondence(chk, rng):
     chk.cov["skipped_ill_conditioned"] = len(skipped) + skipped_py
     for b in broken:
         chk.broken.append({"what": "correspondence corr:C10 shard not evaluated", "detail": b})
+    chk.cov["implementation_raised_on_valid_raw_option_calls"] = len(IMPL_REJECTS)
+    for m_ in IMPL_REJECTS:
+        chk.disagreement("corr:C10 (the implementation raises " + str(m_["raised"])[:120] + " on a call of " + m_["corr"] + " that the model of the entry point "
+                         "(Model/NonnegOptions.v: option parsing + skeleton) accepts and decomposes)", m_)
     for i in bad:
         if meta[i]["corr"].startswith("corr:C10-static"):
             chk.disagreement(meta[i]["corr"] + ": the sign analysis (Model/NonnegSign.v, theorem C10_sign_analysis_sound) does not establish that the decomposition returned by "
